@@ -883,7 +883,10 @@ class Variable(CanBehaveLikeAVariable[T]):
             if isinstance(domain, HashedIterable):
                 self._domain_ = domain
             if isinstance(domain, SymbolicExpression):
-                new_domain = (v[domain._id_] for v in domain._evaluate__())
+                # the values of another expression (a variable, a query): like a collection, only its members of the
+                # variable's type
+                new_domain = (v[domain._id_] for v in domain._evaluate__()
+                              if self._type_ is None or isinstance(v[domain._id_].value, self._type_))
             elif not is_iterable(domain):
                 new_domain = [HashedValue(domain)]
             new_domain = new_domain or domain
